@@ -210,11 +210,13 @@ def build_harness(profile="debug"):
         args = ["timeout", "1500", "cargo", "build", "--offline"]
         if profile == "release":
             args.append("--release")
-        p = sh(args, cwd=HARNESS, timeout=1600, check=False)
+        env = dict(ENV)
+        env["CARGO_TARGET_DIR"] = TARGET       # overrides harness/.cargo/config.toml when /verif is a snapshot elsewhere
+        p = sh(args, cwd=HARNESS, timeout=1600, check=False, env=env)
         if p.returncode != 0 and os.path.exists(lock_src):
             # lock drifted (dependency change in /repo): refresh from /repo's lock once
             shutil.copyfile(lock_src, lock_dst)
-            p = sh(args, cwd=HARNESS, timeout=1600, check=False)
+            p = sh(args, cwd=HARNESS, timeout=1600, check=False, env=env)
         if p.returncode != 0:
             raise CheckError("harness does not build against %s (profile %s):\n%s" % (REPO, profile, p.stdout[-6000:]))
         return os.path.join(TARGET, profile, "cbverif-harness"), time.time() - t0
